@@ -35,14 +35,17 @@ Definition has_zombies (p : plat) : bool := match p with Windows => false | _ =>
 Definition pid0_rule (p : plat) : bool :=
   match p with FreeBSD | OpenBSD | NetBSD | SunOS => true | _ => false end.
 
-(* None = the property demands nothing (the OS says "no such process" about a PID it
-   lists as alive and not a zombie: an inconsistent world) *)
+(* None = the property demands nothing (Solaris/AIX: "no such process" about a PID that is
+   listed alive and not a zombie) *)
 Definition contract (p : plat) (meth site : string) (c : cond) : option res :=
   if nosuch_failure p meth site (c_err c) then
     match c_state c with
     | Gone => Some RNoSuch
     | Zombie => Some (if has_zombies p then RZombie else RNoSuch)
-    | Alive => None
+    | Alive => match p with
+               | SunOS | AIX => None          (* procfs platforms cannot tell: a PID still there after ENOENT is taken for a zombie *)
+               | _ => Some RNoSuch            (* listed, but not as a zombie *)
+               end
     end
   else if perm_failure (c_err c) then Some RDenied
   else if pid0_rule p && c_pid0 c && listed (c_state c) then Some RDenied
@@ -89,6 +92,28 @@ Definition demanded (p : plat) (meth site : string) (c : cond) : option res :=
   | Some r => Some r
   | None => contract p meth site c
   end.
+
+(* finding: PID 0 NOT listed by the OS is still taken to exist (_psposix.pid_exists(0) is True
+   unconditionally): Solaris turns a no-such-process failure on it into ZombieProcess, NetBSD
+   cmdline() swallows EINVAL for it *)
+Definition known_pid0_unlisted (p : plat) (meth site : string) (c : cond) : bool :=
+  c_pid0 c && negb (listed (c_state c)) &&
+  match p with
+  | SunOS => nosuch_failure p meth site (c_err c)
+  | NetBSD => g_netbsd_cmdline meth site && is_einval (c_err c)
+  | _ => false
+  end.
+
+(* native status codes that mean "zombie" (sys/proc.h of each system; OpenBSD reports dead
+   processes as SDEAD, SZOMB is unused there but kept) *)
+Definition doc_zombie_codes (p : plat) : list string :=
+  match p with
+  | OpenBSD => ["SDEAD"; "SZOMB"]
+  | Windows => []
+  | _ => ["SZOMB"]
+  end%string.
+Definition state_of_code (p : plat) (code : string) : pstate :=
+  if existsb (String.eqb code) (doc_zombie_codes p) then Zombie else Alive.
 
 Definition all_err : list err := [ESRCH; ENOENT; EPERM; EACCES; EIO; EINVAL; WACCESS; WPRIV; WPARTIAL; WINVAL].
 Definition all_state : list pstate := [Alive; Zombie; Gone].
